@@ -16,7 +16,7 @@ import json
 import os
 import time
 
-from harness import vcore, vscen
+from harness import sublay_tie, vcore, vscen
 from vlib import core
 
 PROPS = ["Props/C14.v"]
@@ -93,9 +93,10 @@ def d14a_verify_pinned(ctx, env):
 
 
 def run(ctx):
-    n = 700 if ctx.thorough() else 100
+    n = 800 if ctx.thorough() else 100
     n_assign = 3
     core.check_props(ctx, PROPS)
+    sublay_tie.run(ctx, 'Tie/C14.v')
     fams = ("ed25519", "rsa", "ecdsa") if ctx.thorough() else ("ed25519",)
     env = vscen.Env(ctx.rng, ctx.work, families=fams)
     sets = opt_sets()
